@@ -421,8 +421,51 @@ def _concurrent_view_case(case):
   return {'facts': dict(f.split('=') for f in facts)}
 
 
+def _concurrent_log_case(case):
+  """two threads of one run log at the same time (phase thread and a helper / monitor thread): the rendering of the
+  record's log lines keeps the order of the in-memory list. Source lines of TestRecord.add_log_record are scheduling
+  points."""
+  import threading
+  from harness import common, sched, sched_exec
+  sched_exec.install(True)
+  from openhtf.core import test_record
+  from openhtf.util import logs
+  rec = test_record.TestRecord(dut_id=None, station_id='s', code_info=None, start_time_millis=0, metadata={}, diagnosers=[])
+  facts = []
+
+  def body(s):
+    logs.initialize_record_handler('uc10', rec, lambda: None)
+
+    def logger_thread(tag):
+      lg = logs.get_record_logger_for('uc10')
+      for i in range(case['n']):
+        lg.info('m %s %d', tag, i)
+    ths = [threading.Thread(target=logger_thread, args=(t,)) for t in ('a', 'b')]
+    for t, n in zip(ths, ('la', 'lb')):
+      t._cosched_name = n
+      t.start()
+    for t in ths:
+      t.join()
+    logs.remove_record_handler('uc10')
+    return True
+  try:
+    rbox, s = sched.run(sched.chooser_for(case, 'c10l'), body, max_steps=100000,
+                        trace_lines=sched.codes_of(test_record.TestRecord.add_log_record))
+  finally:
+    logging.disable(logging.CRITICAL)
+  if s.deadlock or 'sched_error' in rbox:
+    facts.append('deadlock_free=0')
+  mem = [l.message for l in rec.log_records]
+  view = [l['message'] for l in rec.as_base_types()['log_records']]
+  facts.append('log_lines=%d:%d' % (len(mem), 2 * case['n']))
+  facts.append('log_view_in_the_order_of_the_record=%d' % (1 if mem == view else 0))
+  return {'facts': dict(f.split('=') for f in facts)}
+
+
 def run_real(case):
   k = case['kind']
+  if k == 'L':
+    return _concurrent_log_case(case)
   if k == 'X':
     return _concurrent_view_case(case)
   if k == 'V':
@@ -458,6 +501,8 @@ def encode(case, obs):
 def classify(case, obs):
   if case['kind'] == 'X':
     return 'X/concurrent-render'
+  if case['kind'] == 'L':
+    return 'L/concurrent-logging'
   return case['kind'] + ('/dim' if case.get('dim') else '')
 
 
@@ -505,6 +550,9 @@ def gen_cases(rng, tier):
     for allow_nan in (False, True):
       cases.append({'kind': 'R', 'value': _spec(v), 'allow_nan': allow_nan, 'fail_sub': bool(len(cases) % 2),
                     'size': 1 + len(cases) % 3, 'stop_sub': len(cases) % 3 == 0})
+  for i in range(80 if tier == 'quick' else 2000):
+    r = rng.derive('lg%d' % i)
+    cases.append({'kind': 'L', 'n': r.choice([1, 2, 3]), 'rseed': r.getrandbits(32)})
   for i in range(120 if tier == 'quick' else 3000):
     r = rng.derive('x%d' % i)
     ops = []
